@@ -37,8 +37,9 @@ if P:
         GRAMMAR = ENTRY['g']
         NAMES = ENTRY['names']
         K = len(NAMES)
-        BNF = cfg.BNF(GRAMMAR)
-        LARK = Lark(GRAMMAR.render(), parser='earley', lexer=hs.make_list_lexer(NAMES), ambiguity=WHAT)
+        MP = P.get('mp', True)
+        BNF = cfg.BNF(GRAMMAR, maybe_placeholders=MP)
+        LARK = Lark(GRAMMAR.render(), parser='earley', lexer=hs.make_list_lexer(NAMES), ambiguity=WHAT, maybe_placeholders=MP)
     CYCLIC = BNF.is_cyclic()
     PLAIN = cfg.is_plain(BNF)
     BNF_ONLY = not any(r.helper for r in BNF.rules.values())
